@@ -209,6 +209,8 @@ type sched17 struct {
 	files   int
 	held    int    // requests held inside a backend call when the shutdown call is made (0 = none)
 	heldEnd string // stop | close | unexport
+	heldEnd2 string // "" or a second, overlapping shutdown call
+	gapMs   int    // delay of the second call
 	holdMs  int    // how long the backend call is held
 }
 
@@ -675,45 +677,65 @@ func runC17(s sched17, kind string, idx int) Case {
 				tags["held_requests"] = nheld
 				tags["held_"+s.heldEnd]++
 				time.Sleep(time.Duration(5+s.holdMs%20) * time.Millisecond)
-				type res struct {
-					ok bool
+				// one shutdown call, or two overlapping ones (the second issued gapMs later from another goroutine).
+				// Each calling goroutine takes its own snapshot right after its call returned.
+				ends := []string{s.heldEnd}
+				if s.heldEnd2 != "" {
+					ends = append(ends, s.heldEnd2)
+					tags["overlapping_shutdown_calls"]++
+					tags["overlap_"+s.heldEnd+"+"+s.heldEnd2]++
 				}
-				done := make(chan res, 1)
-				go func() {
-					var err error
-					switch s.heldEnd {
-					case "close":
-						err = nfs.Close()
-					case "unexport":
-						err = nfs.Unexport()
-					default:
-						err = d.srv.Stop()
-					}
-					atomic.StoreInt32(&hf.returned, 1)
-					done <- res{err == nil}
-				}()
-				var r res
+				type snap struct {
+					ok                     bool
+					inflight               int64
+					rg, sg, cnt, act       int
+					h, a, dd               int
+					server                 bool
+				}
+				snaps := make([]snap, len(ends))
+				var wgS sync.WaitGroup
+				for i, e := range ends {
+					wgS.Add(1)
+					go func(i int, e string) {
+						defer wgS.Done()
+						if i > 0 {
+							time.Sleep(time.Duration(s.gapMs) * time.Millisecond)
+						}
+						var err error
+						switch e {
+						case "close":
+							err = nfs.Close()
+						case "unexport":
+							err = nfs.Unexport()
+						default:
+							err = d.srv.Stop()
+						}
+						atomic.StoreInt32(&hf.returned, 1)
+						sn := snap{ok: err == nil, inflight: atomic.LoadInt64(&hf.inflight)}
+						sn.h, sn.a, sn.dd = nfs.VerifLTSCounts()
+						// grace for goroutines that have delivered their result and are unwinding
+						for k := 0; k < 100; k++ {
+							sn.rg, sn.sg = requestGoroutines(), serverGoroutines()-d.baseGor
+							if (sn.rg <= 0 && sn.sg <= 0) || atomic.LoadInt64(&hf.inflight) > 0 {
+								break
+							}
+							time.Sleep(500 * time.Microsecond)
+						}
+						if sn.sg < 0 {
+							sn.sg = 0
+						}
+						sn.cnt, sn.act = d.srv.VerifLTSConnCounts()
+						snaps[i] = sn
+					}(i, e)
+				}
+				allDone := make(chan struct{})
+				go func() { wgS.Wait(); close(allDone) }()
 				select {
-				case r = <-done:
-				case <-time.After(12 * time.Second):
-					d.fail("shutdown call did not return within 12 s")
+				case <-allDone:
+				case <-time.After(15 * time.Second):
+					d.fail("shutdown call did not return within 15 s")
 				}
 				if d.enacted {
-					inflightRet := atomic.LoadInt64(&hf.inflight)
-					h1, a1, d1 := nfs.VerifLTSCounts()
-					// grace for goroutines that have delivered their result and are unwinding
-					rg, sg := 0, 0
-					for i := 0; i < 100; i++ {
-						rg, sg = requestGoroutines(), serverGoroutines()-d.baseGor
-						if (rg <= 0 && sg <= 0) || atomic.LoadInt64(&hf.inflight) > 0 {
-							break
-						}
-						time.Sleep(500 * time.Microsecond)
-					}
-					if sg < 0 {
-						sg = 0
-					}
-					cnt, act := d.srv.VerifLTSConnCounts()
 					// quiescence: every held backend call has come back (generous bound), then a little longer
 					for dl := time.Now().Add(hold + 4*time.Second); atomic.LoadInt64(&hf.inflight) > 0 && time.Now().Before(dl); {
 						time.Sleep(time.Millisecond)
@@ -730,27 +752,29 @@ func runC17(s sched17, kind string, idx int) Case {
 						return uint64(x)
 					}
 					late := atomic.LoadInt64(&hf.late)
-					if s.heldEnd == "stop" {
-						// [ok; in flight at return; request goroutines; server goroutines; connCount; len(activeConns); late mutations]
-						obs(5, bn(r.ok), uint64(inflightRet), uint64(rg), uint64(sg), nz(cnt), uint64(act), uint64(late))
-					} else {
-						k := 6
-						if s.heldEnd == "unexport" {
-							k = 7
+					server := nfs.VerifLTSExportServer() != nil
+					for i, e := range ends {
+						sn := snaps[i]
+						switch e {
+						case "close", "unexport":
+							k := 6
+							if e == "unexport" {
+								k = 7
+								nfsOps = append(nfsOps, "NUnexport")
+							} else {
+								nfsOps = append(nfsOps, "NClose")
+							}
+							// [ok; in flight at return; request goroutines; server goroutines; handles, attr, dir at return;
+							//  handles, attr, dir after quiescence; late mutations; export server still attached]
+							obs(k, bn(sn.ok), uint64(sn.inflight), uint64(sn.rg), uint64(sn.sg), nz(sn.h), nz(sn.a), nz(sn.dd), nz(h2), nz(a2), nz(d2),
+								uint64(late), bn(server))
+						default:
+							// [ok; in flight at return; request goroutines; server goroutines; connCount; len(activeConns); late mutations]
+							obs(5, bn(sn.ok), uint64(sn.inflight), uint64(sn.rg), uint64(sn.sg), nz(sn.cnt), uint64(sn.act), uint64(late))
 						}
-						// [ok; in flight at return; request goroutines; server goroutines; handles, attr, dir at return;
-						//  handles, attr, dir after quiescence; late mutations; export server still attached]
-						obs(k, bn(r.ok), uint64(inflightRet), uint64(rg), uint64(sg), nz(h1), nz(a1), nz(d1), nz(h2), nz(a2), nz(d2),
-							uint64(late), bn(nfs.VerifLTSExportServer() != nil))
-					}
-					switch s.heldEnd {
-					case "close":
-						nfsOps = append(nfsOps, "NClose")
-					case "unexport":
-						nfsOps = append(nfsOps, "NUnexport")
-					}
-					if inflightRet > 0 {
-						tags["returned_with_backend_call_in_flight"]++
+						if sn.inflight > 0 {
+							tags["returned_with_backend_call_in_flight"]++
+						}
 					}
 				}
 				stopped = true
@@ -1017,6 +1041,18 @@ func genC17(r *Rand, idx int, tier string) Case {
 		s.acts = s.acts[:len(s.acts)-1]
 		s.held, s.heldEnd, s.holdMs = 1+r.Intn(3), PickStr(r, "stop", "stop", "close", "unexport"), 300+r.Intn(400)
 		kind = "exact+held-" + s.heldEnd
+		if r.Chance(50) {
+			// two overlapping shutdown calls.  Close || Unexport and Close || Close write AbsfsNFS.exportServer from
+			// both goroutines (a data race in the library itself, which documents no concurrent use of these two): they
+			// are kept out of the -race build of the thorough tier; Stop || Stop and Unexport || Stop touch no plain field.
+			pairs := [][2]string{{"stop", "stop"}, {"stop", "stop"}, {"unexport", "stop"}, {"close", "unexport"}, {"close", "close"}}
+			if tier == "thorough" {
+				pairs = pairs[:3]
+			}
+			pr := pairs[r.Intn(len(pairs))]
+			s.heldEnd, s.heldEnd2, s.gapMs = pr[0], pr[1], 50+r.Intn(100)
+			kind = "exact+held-" + pr[0] + "||" + pr[1]
+		}
 	}
 	s.closing = [][]string{{"close", "close"}, {"close", "unexport", "stop"}, {"unexport", "close", "close"}, {"stop", "close", "unexport", "close"},
 		{"unexport", "activity", "unexport", "close"}, {"unexport", "unexport", "activity", "close", "close"},
@@ -1040,6 +1076,11 @@ func corpusC17() []Case {
 		closing: []string{"close", "unexport"}}
 	heldUnexp := sched17{max: 5, idleNs: 3600000 * ms, files: 0, acts: nil, held: 3, heldEnd: "unexport", holdMs: 350,
 		closing: []string{"unexport", "close"}}
+	stopStop := sched17{max: 3, idleNs: 3600000 * ms, files: 1, acts: []act17{{kind: "open"}}, held: 2, heldEnd: "stop", heldEnd2: "stop",
+		gapMs: 80, holdMs: 500, closing: []string{"close", "close"}}
+	unexpStop := sched17{max: 3, idleNs: 3600000 * ms, files: 1, acts: []act17{{kind: "open"}}, held: 1, heldEnd: "unexport", heldEnd2: "stop",
+		gapMs: 60, holdMs: 450, closing: []string{"close"}}
 	return []Case{runC17(limit, "limit-reap-stop", 0), runC17(filt, "filter-reap-stop", 1), runC17(churn, "churn-stop-mid-burst", 2),
-		runC17(heldStop, "held-stop", 3), runC17(heldClose, "held-close", 4), runC17(heldUnexp, "held-unexport", 5)}
+		runC17(heldStop, "held-stop", 3), runC17(heldClose, "held-close", 4), runC17(heldUnexp, "held-unexport", 5),
+		runC17(stopStop, "held-stop||stop", 6), runC17(unexpStop, "held-unexport||stop", 7)}
 }
